@@ -308,11 +308,15 @@ pub fn check_views(step: usize, g: &G, m: &Model, in_sync: bool, case: &Case, cx
 
     // ---- node sets --------------------------------------------------------------------------
     let mut rng = Rng::new(case.seed ^ (step as u64).wrapping_mul(0x9E37), "c02.subsets");
-    for _ in 0..3 {
+    for round in 0..4 {
         let k = rng.range(0, 3.min(universe.len()));
         let mut set: Vec<String> = (0..k).map(|_| rng.pick(&universe).clone()).collect();
         if rng.chance(3, 4) {
             set.retain(|x| has(x));
+        }
+        if round == 3 && node_names.len() <= 12 {
+            // every node named twice: a list longer than the node list, all present
+            set = node_names.iter().chain(node_names.iter()).cloned().collect();
         }
         let all_present = set.iter().all(|x| has(x));
         let hn = q!("has_nodes", g.has_nodes(&set));
@@ -479,10 +483,10 @@ impl Prop for C02Prop {
         let mut rng = Rng::new(seed, "config");
         let specs = Specs::from_index(idx as usize % 96);
         let mut case = Case::new("C02", seed, specs);
-        let o = gen::HistOpts { specs, max_ops: 24, regime: gen::regime_any(&mut rng, true), derived: rng.chance(1, 3), restart: true, names_min: 3, names_max: 6, dup_bias: 30 };
+        let o = gen::HistOpts { specs, max_ops: 24, regime: gen::regime_any(&mut rng, true), derived: rng.chance(1, 3), restart: true, names_min: 3, names_max: 6, dup_bias: 30, big: rng.chance(1, 500) };
         let mut wr = Rng::new(seed, "workload");
         case.ops = gen::gen_history(&mut wr, &o);
-        case.envs = gen::keyings(seed, 2).into_iter().map(|k| Env { keying: k, pool: 1, sched: 0 }).collect();
+        case.envs = gen::envs(seed, 2);
         case
     }
     fn run_env(&self, case: &Case, _env: &Env, cx: &mut Ctx) {
